@@ -1010,6 +1010,51 @@ class recarray(ndarray):
     pass
 
 
+class ShapeOnlyArray(ndarray):
+    """An ndarray whose extents are symbolic integers and whose contents are
+    irrelevant (C19: constructors only look at .shape).  Any access to the data first
+    concretises the extents through the solver (each feasible extent is a path)."""
+
+    @staticmethod
+    def make(shape, dt="<f4"):
+        a = object.__new__(ShapeOnlyArray)
+        a.shape = tuple(shape)
+        a.dtype = dtype(dt)
+        a._buf = None
+        a._idx = None
+        a._writeable = True
+        return a
+
+    def _materialize(self):
+        if self._buf is None:
+            shp = tuple(_as_index(s) for s in self.shape)
+            self.shape = shp
+            n = _prod(shp)
+            if n > 4096:
+                raise UnsupportedInShim("materialising a large shape-only array")
+            self._buf = [0] * n
+            self._idx = list(range(n))
+
+    @property
+    def ndim(self):
+        return len(self.shape)
+
+    def __len__(self):
+        if not self.shape:
+            raise TypeError("len() of unsized object")
+        return _as_index(self.shape[0])
+
+    def __getitem__(self, key):
+        self._materialize()
+        return ndarray.__getitem__(ndarray._mk(self.shape, self.dtype, self._buf, self._idx), key)
+
+    def __getattr__(self, name):
+        if name.startswith("__"):
+            raise AttributeError(name)
+        self._materialize()
+        return getattr(ndarray._mk(self.shape, self.dtype, self._buf, self._idx), name)
+
+
 def _leaf_as_value(x, code: str):
     if code[0] == "f":
         return FloatLeaf(_fw(code), x)
